@@ -454,8 +454,10 @@ def run_hyp(desc):
     return out
 
 
-def run_fuzz(desc):
-    """Run the atheris target as a sub-process (libFuzzer owns the process); findings come back as JSON lines."""
+def run_fuzz(desc, want='crash'):
+    """Run the atheris target as a sub-process (libFuzzer owns the process); findings come back as JSON lines.
+    want='crash': C10's findings (undocumented exceptions, regexes that do not compile);
+    want='mismatch': C08's (translate() regexes disagree with the matcher)."""
     out = Outcome()
     target = os.path.join(VERIF_DIR, 'fuzz', 'fuzz_c10.py')
     try:
@@ -495,6 +497,8 @@ def run_fuzz(desc):
             with open(report) as f:
                 for line in f:
                     d = json.loads(line)
+                    if (d['bucket'][0] == 'MISMATCH') != (want == 'mismatch'):
+                        continue
                     fid = classify(d, desc['armed'])
                     d['stream'] = 'atheris'
                     if fid:
